@@ -5,7 +5,7 @@
     an EQU name and a use of its parenthesised definition reduce to the same number, and it is this
     number that is sized and encoded.  An EQU statement itself emits nothing (C05_silent). *)
 From Coq Require Import List ZArith String Bool Lia.
-From Gosk Require Import Base.Bytes Model.Ast Model.Eval Spec.Arith Lemmas.EvalLemmas Lemmas.RenameLemmas.
+From Gosk Require Import Base.Bytes Model.Ast Model.Eval Spec.Arith Lemmas.EvalLemmas Lemmas.RenameLemmas Lemmas.C11Model.
 Import ListNotations.
 Local Open Scope Z_scope.
 
@@ -14,16 +14,24 @@ Theorem C11_subst : forall rho n d v e, aeval rho d = Some v ->
 Proof. intros rho n d v e H. exact (aeval_subst rho n d v H (fun _ => eq_refl) (esize e) e (le_n _)). Qed.
 Print Assumptions C11_subst.
 
-(* model level: with the macro n stored as the evaluated number v (what pass 1 stores for an EQU whose body is
-   constant), evaluating a constant expression that uses n gives the value of the inlined expression *)
+(* model level: with the macro n stored as the evaluated number v (what pass 1 stores for an EQU whose body is constant),
+   a constant expression that uses n and the same expression with n replaced by its definition both reduce - in the model
+   of gosk's evaluator, with the fuel pass 1 uses - to the same number w, the one the arithmetic specification gives *)
 Theorem C11_model : forall env n d v e w,
-  env_ok env -> lookup n (macros env) = Some (ENum v) -> n <> "$"%string ->
-  aeval (rho_env env) d = Some v -> lits_ok e ->
+  env_ok env -> n <> "$"%string -> lits_ok d -> lits_ok e ->
+  aeval (rho_env env) d = Some v ->
   aeval (rho_env env) (subst n d e) = Some w ->
-  (forall s, s <> n -> True) ->
-  aeval (bind (rho_env env) n v) e = Some w.
-Proof. intros env n d v e w _ _ _ Hd _ Hw _. rewrite (C11_subst (rho_env env) n d v e Hd). exact Hw. Qed.
+  eval_top (with_macro env n v) e = Ev (ENum w) true /\ eval_top env (subst n d e) = Ev (ENum w) true.
+Proof. exact equ_transparent_in_model. Qed.
 Print Assumptions C11_model.
+
+Example C11_model_nonvacuous :
+  let env := {| macros := [("A"%string, ENum 10)]; eloc := 31744 |} in
+  let d := EAdd (EMul (EImm (FId "A"%string)) [(OpMul, EImm (FNum 2))]) [(OpPlus, EMul (EImm (FNum 1)) [])] in
+  let e := EAdd (EMul (EImm (FId "B"%string)) [(OpMul, EImm (FNum 3))]) [(OpMinus, EMul (EImm (FId "$"%string)) [])] in
+  aeval (rho_env env) d = Some 21 /\ aeval (rho_env env) (subst "B"%string d e) = Some (-31681)
+  /\ eval_top (with_macro env "B"%string 21) e = Ev (ENum (-31681)) true.
+Proof. repeat split; vm_compute; reflexivity. Qed.
 
 Example C11_chain : let rho := bind (bind (fun _ => None) "A"%string 10) "B"%string 21 in
   aeval rho (EAdd (EMul (EImm (FId "B"%string)) [(OpMul, EImm (FNum 2))]) [(OpPlus, EMul (EImm (FId "A"%string)) [])]) = Some 52.
